@@ -3,7 +3,11 @@ package main
 
 import (
 	"fmt"
+	"go/ast"
+	"go/types"
 	"os"
+
+	"golang.org/x/tools/go/packages"
 
 	"verifsa/core"
 	"verifsa/eng"
@@ -30,6 +34,18 @@ func main() {
 			}
 		}
 		fmt.Println("sites", n, "bad", bad)
+	case "lastelem":
+		p.Decls(true, func(pkg *packages.Package, obj *types.Func, fd *ast.FuncDecl) {
+			for _, s := range eng.LastElemSites(pkg, fd) {
+				fmt.Printf("%v %s %s x=%s type=%v  %s\n", s.Guarded, p.Pos(s.Expr.Pos()), core.ObjName(obj), s.X, s.XType, s.How)
+			}
+		})
+	case "chain":
+		p.Decls(true, func(pkg *packages.Package, obj *types.Func, fd *ast.FuncDecl) {
+			for _, s := range eng.ChainLoops(pkg, fd) {
+				fmt.Printf("%v %s %s elem=%s L%d off=%s  %s\n", s.OK, p.Pos(s.Loop.Pos()), core.ObjName(obj), s.Elem, s.Level, s.Offset, s.Why)
+			}
+		})
 	case "funcs":
 		for _, fn := range p.SrcFuncs(true) {
 			fmt.Println(core.FuncName(fn))
